@@ -1,12 +1,12 @@
 (* Dispatch.v — one entry point for the harness: (property, function, arguments, observed output) ↦ verdict.
    Each property owns a table of entries in its own DCxx.v; this file only selects the table. *)
 From Coq Require Import String List.
-From SID Require Import Wire DC01 DC02 DC03 DC04 DC05 DC06 DC07 DC08 DC09 DC10 DC11 DC12 DC14 DC15 DC16 DC17 DC18 DC19 DC20.
+From SID Require Import Wire DC01 DC02 DC03 DC04 DC05 DC06 DC07 DC08 DC09 DC10 DC11 DC12 DC13 DC14 DC15 DC16 DC17 DC18 DC19 DC20.
 Import ListNotations.
 Open Scope string_scope.
 
 Definition tables : list (string * table) :=
-  [("C01", table_C01); ("C02", table_C02); ("C03", table_C03); ("C04", table_C04); ("C05", table_C05); ("C06", table_C06); ("C07", table_C07); ("C08", table_C08); ("C09", table_C09); ("C10", table_C10); ("C11", table_C11); ("C12", table_C12); ("C14", table_C14); ("C15", table_C15); ("C16", table_C16); ("C17", table_C17); ("C18", table_C18); ("C19", table_C19); ("C20", table_C20)].
+  [("C01", table_C01); ("C02", table_C02); ("C03", table_C03); ("C04", table_C04); ("C05", table_C05); ("C06", table_C06); ("C07", table_C07); ("C08", table_C08); ("C09", table_C09); ("C10", table_C10); ("C11", table_C11); ("C12", table_C12); ("C13", table_C13); ("C14", table_C14); ("C15", table_C15); ("C16", table_C16); ("C17", table_C17); ("C18", table_C18); ("C19", table_C19); ("C20", table_C20)].
 
 Definition dispatch (oracle : oracle_t) (prop fn : string) (args : list val) (obs : val) : verdict :=
   match find (fun e => String.eqb (fst e) prop) tables with
